@@ -82,3 +82,23 @@ def mc_all(ctx, runs):
             ctx.violation(f'specification {mod}/{cfg} violates {r["inv_violated"] or "a property"}', rp)
             ok = False
     return ok
+
+
+def tlc_scripts(ctx, kind, maxlen, nt=3):
+    """spec -> code: TLC enumerates every behaviour of the abstract lock (spec/SyncScripts.tla) up to `maxlen` steps and prints
+    each as a script for the conductor of h_sync.  Returns (path of the script file, number of scripts)."""
+    import re
+    cfg = f'{ctx.out}/MC_SyncScripts_{kind}_{maxlen}.cfg'
+    with open(cfg, 'w') as f:
+        f.write(f'SPECIFICATION Spec\nCONSTANTS\n  NT = {nt}\n  MaxLen = {maxlen}\n  Kind = "{kind}"\nINVARIANT Emit\nCHECK_DEADLOCK FALSE\n')
+    r = ctx.mc('SyncScripts', cfg, timeout=1800, workers=1, tag=f'scripts_{kind}_{maxlen}')
+    if r['rc'] != 0:
+        raise vtlib.InfraError(f'SyncScripts.tla ({kind}, {maxlen}) did not complete: see {r["log"]}')
+    scripts = re.findall(r'^"SCRIPT (.*?) ?"$', r['out'], re.M)
+    if not scripts:
+        raise vtlib.InfraError('SyncScripts.tla printed no scripts')
+    path = f'{ctx.out}/scripts_{kind}_{maxlen}.txt'
+    with open(path, 'w') as f:
+        f.write('\n'.join(scripts) + '\n')
+    ctx.extra.setdefault('tlc_generated_scripts', {})[f'{kind}/{maxlen}'] = len(scripts)
+    return path, len(scripts)
